@@ -31,6 +31,8 @@ FLOORS["quick"].update({'steps_interrupted_in_sleep': 15000})
 FLOORS["thorough"].update({'steps_interrupted_in_sleep': 75000})
 FLOORS["quick"].update({'runs_without_probes': 1800, 'second_jobs_after_idle': 1200})
 FLOORS["thorough"].update({'runs_without_probes': 9000, 'second_jobs_after_idle': 6000})
+FLOORS["quick"].update({'run_until_on_empty_schedule': 600})
+FLOORS["thorough"].update({'run_until_on_empty_schedule': 3000})
 PROFILE = {"weights": {"timeout": 6, "zero": 1, "wait": 2, "succeed": 2, "fail": 0.3, "spawn": 1.5, "join": 1.5,
                        "interrupt": 1, "cb": 0.5, "cond": 1},
            "max_top": 4, "max_child_scripts": 2, "min_ev": 0, "max_ev": 2, "p_exact": 1.0, "p_raise": 0.05,
